@@ -107,7 +107,9 @@ func (g *FnGen) findLoops() {
 	}
 	for _, sp := range g.fc.Loops {
 		if !used[sp] {
-			g.unsupported("loop spec %q(%s) does not match any loop of %s", sp.Key, strings.Join(sp.Vars, ","), g.fname)
+			// the loop the invariant was written for is gone (the body changed shape): the function is verified
+			// without it, so every obligation that depended on the invariant is reported as undischarged
+			g.note(fmt.Sprintf("loop spec %q(%s) matches no loop of the current body and is ignored", sp.Key, strings.Join(sp.Vars, ",")))
 		}
 	}
 }
